@@ -488,3 +488,15 @@ Theorem C18_sat_cnf_example :
            (ALGate false 3)).
 Proof. exact ex_cnf_hyps. Qed.
 Print Assumptions C18_sat_cnf_example.
+
+(** the hypotheses of the SAT round trips hold for a concrete formula with all operators *)
+Theorem C18_sat_example :
+  sform_ok_b true (andb true true) 3 ex_sform = true /\
+  parse_dimacs false false (print_sat_body true true 3 ex_sform)
+  = POk (mkRProblem (varset_new 3)
+           [(DXor, [ALIn false 0; ALIn true 1]); (DAnd, [ALIn false 1; ALIn false 2; ALConst false]);
+            (DOr, [ALIn false 0; ALIn false 2]);
+            (DXor, [ALGate false 0; ALGate false 1; ALGate true 2; ALIn true 2])]
+           (ALGate true 3)).
+Proof. exact ex_sform_hyps. Qed.
+Print Assumptions C18_sat_example.
